@@ -22,6 +22,7 @@ TOKEN_RE = re.compile(r"""
     (?P<ws>\s+)
   | (?P<lcomment>//[^\n]*)
   | (?P<bcomment>/\*.*?\*/)
+  | (?P<rstr>b?r(?P<hashes>\#*)".*?"(?P=hashes))
   | (?P<str>b?"(?:\\.|[^"\\])*")
   | (?P<char>b?'(?:\\.|[^'\\])')
   | (?P<lifetime>'[A-Za-z_][A-Za-z0-9_]*)
@@ -49,6 +50,8 @@ def tokenize(src):
             toks.append(('id', m.group('ident')))
         elif m.group('op') is not None:
             toks.append(('op', m.group('op')))
+        elif m.group('rstr') is not None:
+            toks.append(('str', m.group('rstr')))
         elif m.group('str') is not None:
             toks.append(('str', m.group('str')))
         elif m.group('char') is not None:
@@ -395,6 +398,152 @@ def find_consts(toks, name):
     return res
 
 
+# ---------------------------------------------------------------- struct shapes / global state
+def strip_guarded(toks):
+    """drop items / statements guarded by #[cfg(test)] or #[cfg(.. coap_lite_verif ..)]
+    (the verification hooks and the unit tests are not part of the modelled code)"""
+    out = []
+    i = 0
+    n = len(toks)
+    while i < n:
+        if toks[i] == ('op', '#') and i + 2 < n and toks[i + 1] == ('op', '[') and toks[i + 2] == ('id', 'cfg'):
+            e = match_close(toks, i + 1)
+            inner = toks[i + 2:e]
+            if ('id', 'test') in inner or ('id', 'coap_lite_verif') in inner:
+                # skip the guarded item: up to the end of its first top-level brace block, or ';'
+                j = e + 1
+                while j < n:
+                    t = toks[j]
+                    if t == ('op', '#') and j + 1 < n and toks[j + 1] == ('op', '['):
+                        j = match_close(toks, j + 1) + 1
+                        continue
+                    if t[0] == 'op' and t[1] in '([':
+                        j = match_close(toks, j) + 1
+                        continue
+                    if t == ('op', '{'):
+                        j = match_close(toks, j) + 1
+                        break
+                    if t == ('op', ';'):
+                        j += 1
+                        break
+                    j += 1
+                i = j
+                continue
+        out.append(toks[i])
+        i += 1
+    return out
+
+
+def type_str(toks):
+    return ''.join(str(v) for _, v in toks)
+
+
+def parse_struct(toks, name):
+    """fields of `struct name<..> { .. }` as (field, type) with the type's tokens glued together"""
+    i = find_seq(toks, ['struct', name])
+    if i < 0:
+        raise TranslateError("struct %s not found" % name)
+    b = i + 2
+    tuple_struct = False
+    depth = 0
+    while not (toks[b] == ('op', '{') and depth == 0):
+        if toks[b] == ('op', '<'):
+            depth += 1
+        elif toks[b] == ('op', '>'):
+            depth -= 1
+        elif toks[b] == ('op', ';'):
+            raise TranslateError("struct %s: unit struct" % name)
+        elif toks[b] == ('op', '(') and depth == 0:
+            tuple_struct = True
+            break
+        b += 1
+    e = match_close(toks, b)
+    body = toks[b + 1:e]
+    fields = []
+    k = 0
+    if tuple_struct:
+        idx = 0
+        while k < len(body):
+            if body[k] == ('op', '#'):
+                k = match_close(body, k + 1) + 1
+                continue
+            if body[k] == ('id', 'pub'):
+                k += 1
+                if k < len(body) and body[k] == ('op', '('):
+                    k = match_close(body, k) + 1
+                continue
+            start = k
+            depth = 0
+            while k < len(body):
+                v = body[k]
+                if v[0] == 'op' and v[1] in '<([{':
+                    depth += 1
+                elif v[0] == 'op' and v[1] in '>)]}':
+                    depth -= 1
+                elif v == ('op', '>>'):
+                    depth -= 2
+                elif v == ('op', ',') and depth == 0:
+                    break
+                k += 1
+            if k > start:
+                fields.append((str(idx), type_str(body[start:k])))
+                idx += 1
+            k += 1
+        return fields
+    while k < len(body):
+        t = body[k]
+        if t == ('op', '#'):
+            k = match_close(body, k + 1) + 1
+            continue
+        if t == ('id', 'pub'):
+            k += 1
+            if k < len(body) and body[k] == ('op', '('):
+                k = match_close(body, k) + 1
+            continue
+        if t[0] != 'id' or k + 1 >= len(body) or body[k + 1] != ('op', ':'):
+            raise TranslateError("struct %s: unexpected token %r" % (name, t))
+        fname = t[1]
+        k += 2
+        start = k
+        depth = 0
+        while k < len(body):
+            v = body[k]
+            if v[0] == 'op' and v[1] in '<([{':
+                depth += 1
+            elif v[0] == 'op' and v[1] in '>)]}':
+                depth -= 1
+            elif v == ('op', '>>'):
+                depth -= 2
+            elif v == ('op', ',') and depth == 0:
+                break
+            k += 1
+        fields.append((fname, type_str(body[start:k])))
+        k += 1
+    return fields
+
+
+GLOBAL_STATE_IDS = {'thread_local', 'lazy_static', 'OnceCell', 'OnceLock', 'Lazy', 'LazyLock',
+                    'Cell', 'RefCell', 'UnsafeCell', 'Mutex', 'RwLock', 'AtomicBool', 'AtomicU8', 'AtomicU16',
+                    'AtomicU32', 'AtomicU64', 'AtomicUsize', 'AtomicI32', 'AtomicI64', 'AtomicIsize', 'AtomicPtr'}
+
+
+def global_state(files):
+    """identifiers that introduce state outside the values the API passes around (the model is a
+    set of pure functions of those values): statics, thread-locals, interior mutability"""
+    found = []
+    for name, toks in files:
+        for i, (k, v) in enumerate(toks):
+            if k == 'id' and v in GLOBAL_STATE_IDS:
+                found.append('%s:%s' % (name, v))
+            if (k, v) == ('id', 'static') and i + 1 < len(toks) and toks[i + 1] == ('id', 'mut'):
+                found.append('%s:static mut' % name)
+    return sorted(set(found))
+
+
+def lean_str(s):
+    return '"' + s.replace('\\', '\\\\').replace('"', '\\"') + '"'
+
+
 def main():
     repo, out_dir = sys.argv[1], sys.argv[2]
     os.makedirs(out_dir, exist_ok=True)
@@ -549,6 +698,39 @@ def main():
         C.append('def %s : Nat := %d' % (lean, body[i + 2][1]))
     C += ['', 'end CoapLite.Consts', '']
     open(os.path.join(out_dir, 'Consts.lean'), 'w').write('\n'.join(C))
+
+    # ---------------- shapes of the state-bearing structs + global state
+    all_files = [(p, strip_guarded(tokenize(rd(p)))) for p in
+                 ['lib.rs', 'packet.rs', 'header.rs', 'request.rs', 'response.rs', 'observe.rs', 'option_value.rs',
+                  'error.rs', 'link_format.rs', 'block_handler/mod.rs', 'block_handler/block_value.rs',
+                  'impl_coap_message.rs', 'impl_coap_message_0_3.rs']]
+    byname = dict(all_files)
+    S = ['-- GENERATED by translator/gen_model.py from /repo/src – do not edit.',
+         '-- Field lists (declaration order, types as written) of the structs that carry the state the',
+         '-- model describes, and every identifier that introduces state outside those values.',
+         'namespace CoapLite.Shapes', '']
+    for lean, file, struct in [('observer', 'observe.rs', 'Observer'), ('resource', 'observe.rs', 'Resource'),
+                               ('subject', 'observe.rs', 'Subject'),
+                               ('blockHandler', 'block_handler/mod.rs', 'BlockHandler'),
+                               ('blockHandlerConfig', 'block_handler/mod.rs', 'BlockHandlerConfig'),
+                               ('requestCacheKey', 'block_handler/mod.rs', 'RequestCacheKey'),
+                               ('blockState', 'block_handler/mod.rs', 'BlockState'),
+                               ('blockValue', 'block_handler/block_value.rs', 'BlockValue'),
+                               ('headerRaw', 'header.rs', 'HeaderRaw'), ('header', 'header.rs', 'Header'),
+                               ('packet', 'packet.rs', 'Packet'),
+                               ('coapRequest', 'request.rs', 'CoapRequest'),
+                               ('coapResponse', 'response.rs', 'CoapResponse'),
+                               ('linkFormatWrite', 'link_format.rs', 'LinkFormatWrite'),
+                               ('linkAttributeWrite', 'link_format.rs', 'LinkAttributeWrite'),
+                               ('linkFormatParser', 'link_format.rs', 'LinkFormatParser'),
+                               ('linkAttributeParser', 'link_format.rs', 'LinkAttributeParser'),
+                               ('unquote', 'link_format.rs', 'Unquote')]:
+        fields = parse_struct(byname[file], struct)
+        S.append('def %s : List (String × String) := [%s]' % (
+            lean, ', '.join('(%s, %s)' % (lean_str(a), lean_str(b)) for a, b in fields)))
+    S.append('def globalState : List String := [%s]' % ', '.join(lean_str(x) for x in global_state(all_files)))
+    S += ['', 'end CoapLite.Shapes', '']
+    open(os.path.join(out_dir, 'Shapes.lean'), 'w').write('\n'.join(S))
 
 
 if __name__ == '__main__':
